@@ -92,6 +92,26 @@ fn viol(rep: &mut Report, seed: u64, index: u64, prop: &str, sig: String, detail
 fn run_case(seed: u64, index: u64, rep: &mut Report, kernel_thread: bool) {
     let mut rng = Rng::derive(seed, 0x4EA1, index);
     crate::simk::uninstall();
+    // Single-threaded: a lock that cannot be taken after millions of attempts will never be
+    // released by anybody. Natively that is what a use-after-free of an operation's state looks
+    // like (the quarantine's poison pattern reads as a held lock). Report and end the process
+    // instead of spinning until the shard's wall-clock limit.
+    let scenario = if kernel_thread { "realmixsq" } else { "realmix" };
+    *crate::sched::ON_STALL.lock().unwrap_or_else(|e| e.into_inner()) = Some(Box::new(move |lock_addr: usize| {
+        let freed = matches!(alloc::block_of(lock_addr), Some((_, _, false)));
+        let (prop, sig, what) = if freed {
+            ("C01", "real:op-state-used-after-free", "which lies in a block that was already deallocated: the state of an operation was released while a10 (processing a completion of the real kernel) still uses it")
+        } else {
+            ("C06", "real:lock-never-released", "which nobody can release any more in this single-threaded history")
+        };
+        println!(
+            "{{\"t\":\"viol\",\"prop\":{},\"sig\":{},\"detail\":{},\"scenario\":{},\"seed\":{seed},\"index\":{index},\"trace\":[]}}",
+            crate::out::jstr(prop),
+            crate::out::jstr(sig),
+            crate::out::jstr(&format!("a10 spins for ever on the lock at {lock_addr:#x}, {what}")),
+            crate::out::jstr(scenario)
+        );
+    }));
     let mut trace: Vec<String> = Vec::new();
     let fds_before = open_fds();
     alloc::CONSUMER_PHASE_HOLDS.store(false, std::sync::atomic::Ordering::SeqCst);
@@ -635,6 +655,7 @@ fn run_case(seed: u64, index: u64, rep: &mut Report, kernel_thread: bool) {
     } else {
         let _ = crate::mon::logsink::take();
     }
+    *crate::sched::ON_STALL.lock().unwrap_or_else(|e| e.into_inner()) = None;
     let sig = fnv(0, trace.join(" ").as_bytes());
     let nontrivial = slots.len() >= 2 && resolved + dropped_in_flight >= 1;
     let sample = trace.iter().take(24).cloned().collect::<Vec<_>>().join(" ");
@@ -645,9 +666,11 @@ fn run_case(seed: u64, index: u64, rep: &mut Report, kernel_thread: bool) {
 }
 
 pub fn run(seed: u64, start: u64, iters: u64, rep: &mut Report, kernel_thread: bool) {
+    crate::sched::SPIN_LOCKS.store(true, std::sync::atomic::Ordering::SeqCst);
     for index in start..start + iters {
         super::guarded(rep, if kernel_thread { "realmixsq" } else { "realmix" }, "C01", seed, index, |rep| run_case(seed, index, rep, kernel_thread));
     }
+    crate::sched::SPIN_LOCKS.store(false, std::sync::atomic::Ordering::SeqCst);
     // Later scenarios of this process (none today) would want the simulated kernel back.
     crate::simk::install();
 }
